@@ -111,7 +111,7 @@ func OpenStore(ctx context.Context, primaryType string, dataPath, indexPath stri
 	// interfere with any index remapping.
 	mp, ok := primary.(*mhprimary.MultihashPrimary)
 	if ok && mp != nil {
-		mp.StartGC(freeList, c.gcInterval, c.gcTimeLimit, idx.Update)
+		mp.StartGC(freeList, c.gcInterval, c.gcTimeLimit, idx.UpdateIfBlock)
 	}
 
 	store := &Store{
